@@ -28,4 +28,14 @@ def cells(tier):
     it = lambda op, story_k, tk, sk, nk: story_k == 'existing' and (sk is None or len(sk) == 2)
     out += make_cells(PID, 'atomic', tier, N=3, thin=it, extra={'tail': False}, suffix='no-tail',
                       ops=['roItemMoveMultiple', 'EAItemMove', 'EAItemSwap', 'roItemDelete', 'EAItemDelete'])
+    # a story / item with a blank ID in the MIDDLE of the container (between the elements a multi-ID message names)
+    multi = lambda op, story_k, tk, sk, nk: story_k in (None, 'existing') and tk in (None, 'existing', 'blank') and \
+        (sk is None or sk in (['existing', 'existing'], ['existing', 'unknown'], ['existing'])) and (nk is None or nk == ['fresh'])
+    for mid in (1, 2):
+        out += make_cells(PID, 'atomic', tier, N=3, thin=multi, extra={'blank_mid': mid}, suffix='blank-id-at-%d' % mid)
+    # roMetadataReplace with any carried tags (free text where a timestamp is expected, schema-less blocks)
+    from .p_c04 import mcell
+    for carry in ([], ['roEdStart-text'], ['roEdStart-text', 'metaA'], ['metaNone'], ['metaBlank', 'fresh'], ['metaA', 'metaB', 'metaX'],
+                  ['roChannel', 'roEdStart-text']):
+        out.append(mcell(PID, 'atomic', carry, T=60 if tier == 'quick' else 600))
     return out
